@@ -20,7 +20,9 @@
 #ifndef VF_FM
 # define VF_FM 16    /* size of an in-progress reassembly buffer */
 #endif
-#define NFR 2        /* fragments already stored (0..NFR) */
+#ifndef NFR
+# define NFR 2       /* fragments already stored (0..NFR) */
+#endif
 
 static int g_parser_calls, g_hash_calls, g_hash_bad;
 static int32 g_parsed_msn_ok = 1;
